@@ -91,6 +91,7 @@ func c16CheckPair(a, b nameParts) (string, string) {
 
 func c16Run(c c16Case) Outcome {
 	var out Outcome
+	long := false
 	ns := c.Names
 	for i := range ns {
 		for j := range ns {
@@ -100,7 +101,13 @@ func c16Run(c c16Case) Outcome {
 			if c16Nontrivial(ns[i], ns[j]) {
 				out.NonTrivial = true
 			}
+			if i < j && len(ns[i].Key) >= 8 && len(ns[j].Key) >= 8 && bytes.Equal(ns[i].Table, ns[j].Table) && !bytes.Equal(ns[i].Key, ns[j].Key) {
+				long = true
+			}
 		}
+	}
+	if long {
+		out.Labels = append(out.Labels, "same_table_pair_of_different_keys_of_8_or_more_bytes")
 	}
 	// transitivity directly on the implementation (independent of the oracle)
 	for i := range ns {
@@ -140,7 +147,9 @@ func c16GenName(t *rapid.T, pool []nameParts) nameParts {
 		// derive from an existing name so that components coincide
 		base := pool[rapid.IntRange(0, len(pool)-1).Draw(t, "base")]
 		n := nameParts{Table: base.Table, Key: base.Key, ID: base.ID}
-		switch rapid.IntRange(0, 3).Draw(t, "what") {
+		switch rapid.IntRange(0, 4).Draw(t, "what") {
+		case 4:
+			n.Key = gen.Perturb(t, base.Key)
 		case 0:
 			n.Key = gen.Near(t, base.Key)
 		case 1:
@@ -159,7 +168,11 @@ func c16GenName(t *rapid.T, pool []nameParts) nameParts {
 	} else {
 		tbl = gen.Table().Draw(t, "tbl")
 	}
-	return nameParts{Table: evid.B(tbl), Key: gen.Key(6).Draw(t, "key"), ID: c16GenID(t)}
+	key := gen.Key(6)
+	if rapid.IntRange(0, 2).Draw(t, "long") == 0 {
+		key = gen.LongKey(40)
+	}
+	return nameParts{Table: evid.B(tbl), Key: key.Draw(t, "key"), ID: c16GenID(t)}
 }
 
 func c16GenID(t *rapid.T) evid.B {
@@ -178,7 +191,8 @@ func c16GenID(t *rapid.T) evid.B {
 func TestC16_Generated(t *testing.T) {
 	rec := evid.New("C16", "TestC16_Generated",
 		"rapid: lists of 2..6 region names built from (table, start key, id) components with "+
-			"prefix-related tables, comma/neighbour bytes in keys, ids of different lengths and "+
+			"prefix-related tables, comma/neighbour bytes in keys, long keys (up to 40 bytes, word-aligned common prefixes, one byte perturbed "+
+			"anywhere incl. top-bit flips), ids of different lengths and "+
 			"search keys; all ordered pairs, all triples (transitivity) and sortedness are checked "+
 			"against the component-wise tuple order. Non-trivial = some pair has prefix-related "+
 			"tables, a comma in a key, or raw byte order disagreeing with tuple order; distinct by "+
